@@ -22,8 +22,12 @@ RULE = ("center_all on tables of 1..24 chromosomes (chr / plain names, or none n
 EXHAUSTIVE = {"quick": False, "thorough": False}
 ASSUMPTIONS = ["mode/biweight estimators: only the clauses 'uniform shift' and 're-centering changes nothing' are checked "
                "(their values are C19's subject); mode cases are generated with a clear density peak",
-               "sex inference under noise is a statistical claim: covered by an oracle run on the real code only"]
-TRUSTED_EXTRA = ["scipy.stats.median_test (Mood) statistic, gaussian_kde", "pandas Series.median/mean"]
+               "sex inference under noise is a statistical claim: covered by an oracle run on the real code only, EXCEPT on "
+               "the median-difference path (all Mood tables degenerate), where the margin theorem (every bin within d < 1/4 "
+               "of its level, no distribution assumed) is evaluated as a spec clause on the real decision"]
+TRUSTED_EXTRA = ["scipy.stats.median_test (Mood) statistic, gaussian_kde", "pandas Series.median/mean",
+                 "sex_margin on tables with a weight column: the five weighted medians are taken from the real "
+                 "descriptives.weighted_median (parameters of the model; C19 verifies that function)"]
 ESTS = ("median", "mean", "biweight", "mode")
 
 
